@@ -44,6 +44,9 @@ impl PoolState {
                 old(self).liqs == 0 ==> r == lefts && final(self).lefts == lefts && final(self).rights == rights && final(self).liqs == lefts,
                 old(self).liqs != 0 ==> final(self).liqs as int == sat128(old(self).liqs + r) && final(self).lefts as int == sat128(old(self).lefts + lefts) && final(self).rights as int == sat128(old(self).rights + rights),
     { unimplemented!() }
+    /// implied_price = Ratio::new(lefts, rights): panics on a zero right reserve
+    #[verifier::external_body]
+    pub fn implied_price(&self) -> (r: num::BigRational) requires self.rights > 0 ensures r@ == (num::rational::Frac { n: self.lefts as int, d: self.rights as int }) { unimplemented!() }
     /// assert!(self.liqs >= liqs); Ratio::new(liqs, self.liqs) panics on an empty pool
     #[verifier::external_body]
     pub fn withdraw(&mut self, liqs: u128) -> (r: (u128, u128))
